@@ -25,17 +25,7 @@ theorem setitem_stores_leaves (t : Ty) (L : Locals) (n : Nat) (p : PlaceId) (w :
     (unitVal t) (by simp) hw (unitVal_hasShape t)
   obtain ⟨h1, h2, env1, _, h4, _⟩ := h
   refine ⟨fun s t' hat => Holds.leavesOnly s t p _ h4 t' hat, h1, h2, ?_⟩
-  intro q hq
-  have hlen := (mem_enclosing hq).2
-  have hnu : ¬ p <:+ q := fun hs => by have := hs.length_le; omega
-  -- forgotten by the loop at the head of `__setitem__`, and never re-created
-  have : (setitem (popEnclosing L p) n p false w t).1 q = none :=
-    setitem_none_outside t _ n p false w q hnu (by simp [popEnclosing_apply, hq])
-  have hidem : popEnclosing (popEnclosing L p) p = popEnclosing L p := by
-    funext x; simp only [popEnclosing_apply]; split <;> rfl
-  cases t with
-  | leaf c d => simpa [setitem, hidem] using this
-  | node k cs => simpa [setitem, hidem] using this
+  exact setitem_enclosing_none t L n p w false
 
 /-- non-vacuity: a struct `{q: qubit, n: int, t: (qubit, int)}` stored at variable `7` -/
 example :
@@ -147,17 +137,8 @@ example :
     new wire to one of its fields, read the struct again: the second read does *not* return the
     cached wire — the enclosing entries are gone after the assignment, for any place and type. -/
 theorem setitem_invalidates_enclosing (t : Ty) (L : Locals) (n : Nat) (p : PlaceId) (w : Wire)
-    (isRet : Bool) : ∀ q ∈ enclosing p, (setitem L n p isRet w t).1 q = none := by
-  intro q hq
-  have hlen := (mem_enclosing hq).2
-  have hnu : ¬ p <:+ q := fun hs => by have := hs.length_le; omega
-  have : (setitem (popEnclosing L p) n p isRet w t).1 q = none :=
-    setitem_none_outside t _ n p isRet w q hnu (by simp [popEnclosing_apply, hq])
-  have hidem : popEnclosing (popEnclosing L p) p = popEnclosing L p := by
-    funext x; simp only [popEnclosing_apply]; split <;> rfl
-  cases t with
-  | leaf c d => simpa [setitem, hidem] using this
-  | node k cs => cases isRet <;> simpa [setitem, hidem] using this
+    (isRet : Bool) : ∀ q ∈ enclosing p, (setitem L n p isRet w t).1 q = none :=
+  setitem_enclosing_none t L n p w isRet
 
 /-- non-vacuity / regression for the defect witness: `s = {q: qubit, y: int}`; pack `s`,
     assign `s.q := ⟨9,0⟩`, pack again: the new MakeTuple consumes the new wire `⟨9,0⟩`
